@@ -94,6 +94,41 @@ pub struct ParentCfg {
     pub groups: Vec<String>,
 }
 
+/// Spawn `n` worker processes `vmc worker <property> <tier> <i> <n> <budget> <seed> <validate> [extra..]`
+/// and return the payload of each one's `@@RESULT` line (or an error text).
+pub fn spawn_generic(property: &str, tier: &str, n: u64, budget_s: f64, seed: u64, validate: u64, extra: &[String]) -> Vec<Result<String, String>> {
+    let exe = std::env::current_exe().expect("exe");
+    let mut children = Vec::new();
+    for i in 0..n {
+        let mut c = std::process::Command::new(&exe);
+        c.arg("worker").arg(property).arg(tier).arg(i.to_string()).arg(n.to_string()).arg(format!("{}", budget_s)).arg(seed.to_string()).arg(validate.to_string());
+        for e in extra {
+            c.arg(e);
+        }
+        c.stdout(std::process::Stdio::piped()).stderr(std::process::Stdio::piped());
+        children.push(c.spawn().expect("spawn worker"));
+    }
+    let mut out = Vec::new();
+    for (i, mut ch) in children.into_iter().enumerate() {
+        let mut so = String::new();
+        let mut stdout = ch.stdout.take().unwrap();
+        let mut stderr = ch.stderr.take().unwrap();
+        let th = std::thread::spawn(move || {
+            let mut s = String::new();
+            let _ = stderr.read_to_string(&mut s);
+            s
+        });
+        let _ = stdout.read_to_string(&mut so);
+        let se = th.join().unwrap_or_default();
+        let status = ch.wait().expect("wait");
+        match so.lines().rev().find(|l| l.starts_with("@@RESULT ")) {
+            Some(l) => out.push(Ok(l["@@RESULT ".len()..].to_string())),
+            None => out.push(Err(format!("worker {} produced no result (status {:?}); stderr tail: {}", i, status.code(), tail(&se, 1500)))),
+        }
+    }
+    out
+}
+
 /// Spawn worker processes of this binary and merge what they report.
 pub fn spawn_workers(p: &ParentCfg) -> (BTreeMap<String, Stats>, Vec<String>) {
     let exe = std::env::current_exe().expect("exe");
